@@ -604,8 +604,10 @@ namespace pl
         }
         if (withObjective)
         {
+            // default cost threshold (0): never satisfied, so optimizing planners keep optimizing until the budget is used.
+            // (A first version set the threshold to infiniteCost(), which every finite cost satisfies: the informed-tree and
+            // RRT*-family planners then returned at their first solution and never reached pruning / rewiring of later batches.)
             auto opt = std::make_shared<ob::PathLengthOptimizationObjective>(w.si);
-            opt->setCostThreshold(opt->infiniteCost());  // keep optimizing until the budget is used
             pdef->setOptimizationObjective(opt);
         }
         return pdef;
@@ -722,6 +724,11 @@ namespace pl
         if (auto *q = dynamic_cast<og::pRRT *>(p.get())) q->setThreadCount(2 + rng.ui(3));
         if (auto *q = dynamic_cast<og::pSBL *>(p.get())) q->setThreadCount(2 + rng.ui(3));
         if (auto *q = dynamic_cast<og::AnytimePathShortening *>(p.get())) q->setDefaultNumPlanners(2 + rng.ui(3));
+        // informed-tree planners register at most max-number-of-goals goal states of a GoalStates (default 1): half the runs use more
+        if (auto *q = dynamic_cast<og::AITstar *>(p.get()))
+            if (rng.coin()) q->setMaxNumberOfGoals(2 + rng.ui(9));
+        if (auto *q = dynamic_cast<og::EITstar *>(p.get()))
+            if (rng.coin()) q->setMaxNumberOfGoals(2 + rng.ui(9));
         if (auto *q = dynamic_cast<og::FMT *>(p.get())) q->setNumSamples(300 + rng.ui(500));
         if (auto *q = dynamic_cast<og::BFMT *>(p.get())) q->setNumSamples(300 + rng.ui(500));
         if (w.rangeMode != 0 && p->params().hasParam("range"))
